@@ -373,7 +373,8 @@ func runC03(cx *Ctx, r *Report) {
 			}
 		}
 		r.check(okD, "refund-dequeues", "BeginBlock", "", "the per-entry closure must-deletes the entry (current height, id) on every path", "the begin-block closure can return without deleting the queue entry it was called for")
-		okP := len(pays) == 2
+		// (the plain and the outgoing route may share one payout statement)
+		okP := len(pays) >= 1 && len(pays) <= 2
 		for _, x := range pays {
 			if x.ev.Args[2].LooseString() != "addr(‹HTLC›.Sender)" || lastArgS(x.ev) != "‹HTLC›.Amount" {
 				okP = false
@@ -452,7 +453,10 @@ func runC04(cx *Ctx, r *Report) {
 					if amt+"[0]" != d.coin {
 						continue
 					}
-					if coExecuted(d.x.ev, b.ev) || sameCase(d.x.ev, b.ev) {
+					// (the counter update implies the bank effect: the two run together, or every path
+					// from the update to a success exit passes the bank effect - a payout shared with
+					// the plain route after the switch; the converse is the double-entry-converse rule)
+					if coExecuted(d.x.ev, b.ev) || sameCase(d.x.ev, b.ev) || followedBy(d.x.ev, b.ev) {
 						return &banks[i]
 					}
 				}
